@@ -125,6 +125,7 @@ def stamp(ns):
     return "[%02d:%02d:%02d %02d/%02d/%04d]" % (t.tm_hour, t.tm_min, t.tm_sec, t.tm_mon, t.tm_mday, t.tm_year)
 
 
+NONCE_RE = re.compile(r"nonce\d+x")
 LINE_RE = re.compile(r"^\[(\d\d:\d\d:\d\d \d\d/\d\d/\d{4})\] \(([^:()]+):(debug|command|info|warning|error|fatal)\) (.*)$")
 
 
@@ -173,7 +174,7 @@ class LogsProfile:
         res = proto.Result()
         res.extra = {"reloads": 0, "identical_reloads": 0, "failed_reloads": 0, "messages_emitted": 0, "lines_checked": 0,
                      "entries": 0, "entries_ignored": 0, "emitted_between_signals": 0, "valid_file_rejected": 0, "pairs_routed": 0,
-                     "long_messages": 0}
+                     "long_messages": 0, "stamped_with_simulated_time": 0}
         scratch = H.new_scratch(tag)
         conf = os.path.join(scratch, "iauthd.conf")
         steps = plan["steps"]
@@ -299,17 +300,24 @@ class LogsProfile:
                 viol.append(Violation(("C18",), "incomplete-line", "file %s does not end in a newline" % f))
             for ln in c.split("\n")[:-1]:
                 res.extra["lines_checked"] += 1
-                m = LINE_RE.match(ln)
-                if not m:
-                    viol.append(Violation(("C18",), "line-format", "file %s holds a line that is not '[time] (facility:severity) text': %r" % (f, ln[:200])))
+                toks = NONCE_RE.findall(ln)
+                if not toks:
+                    continue            # one of the daemon's own messages
+                if len(toks) > 1:
+                    viol.append(Violation(("C18",), "incomplete-line", "file %s: two messages share one line (the first lost its end): %r ... %r" %
+                                          (f, ln[:80], ln[-60:])))
                     break
-                t = m.group(4).split(" ")[0]
-                if t.startswith("nonce") and t.endswith("x"):
-                    index.setdefault(t, {}).setdefault(f, []).append((m.group(1), m.group(2), m.group(3)))
-                    if texts is not None and t in texts and m.group(4) != texts[t]:
-                        viol.append(Violation(("C18",), "incomplete-line", "file %s: message %s was written as %d bytes %r..., emitted (cut at the "
-                                              "1023-byte message buffer) as %d bytes" % (f, t, len(m.group(4)), m.group(4)[-40:], len(texts[t]))))
-                        break
+                t = toks[0]
+                at_ = ln.index(t)
+                prefix, msg = ln[:at_], ln[at_:]
+                if texts is not None and t in texts and msg != texts[t]:
+                    viol.append(Violation(("C18",), "incomplete-line", "file %s: message %s was written as %d bytes %r..., emitted (cut at the "
+                                          "1023-byte message buffer) as %d bytes" % (f, t, len(msg), msg[-40:], len(texts[t]))))
+                    break
+                # the layout of the prefix is the daemon's business; it must name the facility and the severity
+                words = [w.lower() for w in re.findall(r"[A-Za-z_*][A-Za-z0-9_*]*", prefix)]
+                m = LINE_RE.match(ln)
+                index.setdefault(t, {}).setdefault(f, []).append((m.group(1) if m else None, words))
         if viol:
             return viol
         for tok, fac, sv, exp, at in emitted:
@@ -317,11 +325,12 @@ class LogsProfile:
             for f in FILES:
                 got = hits.get(f, [])
                 want = exp.get(f, 0)
-                for (ts, gf, gs) in got:
-                    if gf.lower() != fac or gs != SEVS[sv]:
-                        viol.append(Violation(("C18",), "misattributed", "message emitted as %s.%s appears in %s as (%s:%s)" % (fac, SEVS[sv], f, gf, gs)))
-                    elif "[" + ts + "]" != stamp(at):
-                        viol.append(Violation(("C18",), "timestamp", "message emitted at simulated %s is stamped [%s]" % (stamp(at), ts)))
+                for (ts, words) in got:
+                    others = [x for x in SEVS if x != SEVS[sv] and x in words]
+                    if fac not in words or SEVS[sv] not in words or others:
+                        viol.append(Violation(("C18",), "misattributed", "message emitted as %s.%s appears in %s with the prefix words %s" % (fac, SEVS[sv], f, words)))
+                    elif ts is not None and "[" + ts + "]" == stamp(at):
+                        res.extra["stamped_with_simulated_time"] += 1      # observed, not demanded: C18 does not speak of time stamps
                 if (len(got) > 0) != (want > 0):
                     viol.append(Violation(("C18",), "routing", "%s.%s %s written to %s: the section in force maps it there %d time(s), found %d" %
                                           (fac, SEVS[sv], "was" if got else "was not", f, want, len(got))))
